@@ -532,3 +532,31 @@ Definition rt_reload (old new : rt_spec) : Z * bool :=
     the update is applied the runtime routes with the generation built from [new], whatever [old]
     was - i.e. like a runtime that only ever had [new]. *)
 Definition rt_generation_after (old new : rt_spec) : rt_spec := new.
+
+(** * Part 6: ObjectRegistry.applyConfig (pkg/supervisor/object.go): one synchronisation round.
+    A snapshot maps names to a decodable value or to an undecodable entry ([None]: unknown kind,
+    malformed YAML, spec failing validation); such an entry is skipped - the object, if the registry
+    has one, stays as it is - and everything else in the round is processed. *)
+Inductive reg_ev := RNone | RCreate (v : string) | RUpdate (v : string) | RDelete.
+
+Definition reg_event (ents : list (string * string)) (snap : list (string * option string)) (n : string) : reg_ev :=
+  match slookup n snap with
+  | None => match slookup n ents with Some _ => RDelete | None => RNone end
+  | Some None => RNone
+  | Some (Some v) =>
+      match slookup n ents with
+      | None => RCreate v
+      | Some v0 => if String.eqb v0 v then RNone else RUpdate v
+      end
+  end.
+
+Definition reg_after (ents : list (string * string)) (snap : list (string * option string)) (n : string) : option string :=
+  match slookup n snap with
+  | None => None
+  | Some None => slookup n ents
+  | Some (Some v) => Some v
+  end.
+
+(** the snapshot as the registry would see it if the undecodable entries were not there at all *)
+Definition reg_healthy (snap : list (string * option string)) : list (string * option string) :=
+  filter (fun kv => match snd kv with Some _ => true | None => false end) snap.
